@@ -394,6 +394,16 @@ MapBased == \A o \in ObjsIn(tree) : o.ns = "" /\ \A i \in DOMAIN o.props : o.pro
 
 Raws(d) == LET R == RLink(link, ObjFn) IN Good(tree, d, tree, R) \cup Probe(tree, d, tree, R)
 
+\* the single-property shorthand is only another spelling: a non-map value handed to a single-property
+\* object fares exactly like the map holding it under that property (recursion through a list or map
+\* consumes input, so a tree node may be written as the bare list of its children at every depth)
+ShorthandLaw ==
+    LET RL == RLink(link, ObjFn)
+        bare == {RStr("x"), RBool, RList(<<>>), RList(<<Item("", RList(<<>>))>>),
+                 RList(<<Item("", RList(<<Item("", RList(<<>>))>>)), Item("", RList(<<>>))>>)}
+    IN \A o \in {x \in AllObjs : Len(x.props) = 1} : \A v \in bare :
+          Unser(o, v, tree, RL, {}) = Unser(o, RMap(<<Item(o.props[1].name, v)>>), tree, RL, {})
+
 \* following the links = resolving lexically = using the inlined tree
 InlineSameAt(k, d) ==
     LET X == RLex(ext, NsTab)
